@@ -15,9 +15,9 @@ BUDGET = {
     "C13": ((16, 24), (64, 64)),
     "C15": ((16, 24), (64, 64)),
     "C05": ((2, 2), (32, 12)),
-    "C19": ((2, 2), (32, 12)),
+    "C19": ((2, 2), (16, 8)),
     "C04": ((2, 2), (32, 12)),
-    "C14": ((16, 16), (64, 64)),
+    "C14": ((16, 16), (32, 32)),
 }
 
 BAD = re.compile(r"error: Undefined Behavior|Data race detected|error: memory leaked|error: the evaluated program|E2-VIOLATION|error: unsupported operation|panicked at")
